@@ -275,8 +275,16 @@ func (w *SrvWorld) cleanForExpectations() bool {
 // minimiser that drops the peer, the permission or the peer's connect drops the expectation
 // with it. Called under e2eMu.
 func (w *SrvWorld) expectationHolds(rc *RealClient, rt *realTConn) bool {
+	ok, why := w.expectationHoldsWhy(rc, rt)
+	if !ok && rt.Expect {
+		w.K.Logf("expectation of %s #%d void: %s", rt.How, rt.Idx, why)
+	}
+	return ok
+}
+
+func (w *SrvWorld) expectationHoldsWhy(rc *RealClient, rt *realTConn) (bool, string) {
 	if rc.Closed && rc.ClosedAt <= rt.T1 {
-		return false
+		return false, "allocation closed by the application"
 	}
 	switch rt.How {
 	case "dial":
@@ -287,16 +295,16 @@ func (w *SrvWorld) expectationHolds(rc *RealClient, rt *realTConn) bool {
 			}
 		}
 		if !listening {
-			return false
+			return false, "nobody listens at " + rt.Want
 		}
 		// RFC 6062 allows one connection per peer address: of two Dials to one peer that overlap
 		// (or of a later one while the first connection lives) either may be the one refused
 		for _, o := range rc.TConns {
 			if o != rt && o.How == "dial" && o.Want == rt.Want && o.T0 <= rt.T1 {
-				return false
+				return false, "another Dial to the same peer"
 			}
 		}
-		return true
+		return true, ""
 	case "accept":
 		// the one peer connection made for this Accept: issued in time, by a peer the
 		// allocation had a permission for, and every earlier connect was consumed by an
@@ -315,38 +323,38 @@ func (w *SrvWorld) expectationHolds(rc *RealClient, rt *realTConn) bool {
 			}
 		}
 		if link == nil {
-			return false
+			return false, "the connect it is linked to is not in the plan"
 		}
 		tc, ok := w.issuedAt[link.ID]
-		if !ok || tc < rt.T0-20500*ms || tc > rt.T1-3*sec {
-			return false
+		if !ok || tc < rt.T0-20500*ms || (tc > rt.T1-3*sec && tc > rt.T0) {
+			return false, fmt.Sprintf("connect issued at %d, Accept %d..%d", tc, rt.T0, rt.T1)
 		}
 		okBefore := 0
 		for _, o := range rc.TConns {
 			if o != rt && o.How == "accept" && o.OpID < rt.OpID {
 				if !o.Done || o.Err != nil {
-					return false
+					return false, "an earlier Accept failed"
 				}
 				okBefore++
 			}
 		}
 		if before != okBefore {
-			return false
+			return false, fmt.Sprintf("%d other connects, %d earlier Accepts", before, okBefore)
 		}
 		p := w.Peers[link.Actor]
 		if p == nil {
-			return false
+			return false, "no such peer"
 		}
 		w.Mon.mu.Lock()
 		defer w.Mon.mu.Unlock()
 		for _, a := range w.Mon.M.Allocs[ustr(rc.Addr)] {
 			if a.TCP && w.Mon.M.DefinitelyAlive(a, tc, rt.T1) && w.Mon.M.PermDefinitely(a, p.Addr.IP.String(), tc, tc+sec) {
-				return true
+				return true, ""
 			}
 		}
-		return false
+		return false, "the model holds no permission for the peer (or the allocation is not certainly alive)"
 	}
-	return false
+	return false, "?"
 }
 
 // checkE2ETCP: the application's view of the TCP relay.
